@@ -161,10 +161,10 @@ def _families_of(case, m):
     if "break_loop_tail_of_fork_ending_loop" in f:
         out.append("PV-F-C2-break-loop-ends-fork-branch-ending-loop-body")
     if not m.complete and not m.too_large:
-        if partial_fork_or_join(m.all_jobs, m.jobs):
+        if partial_fork_or_join(m.all_jobs, m.jobs, (), m.ast):
             out.append("PV-F-P-subset-shows-fork-join-or-loop-partly")
         elif partial_fork_or_join(m.all_jobs, m.jobs,
-                                  loop_event_names(m.ast)):
+                                  loop_event_names(m.ast), m.ast):
             out.append("PV-F-P-subset-shows-fork-join-or-loop-partly"
                        "#loop-clause")
     return out
@@ -202,7 +202,38 @@ def loop_event_names(ast):
     return out
 
 
-def partial_fork_or_join(all_jobs, jobs, in_loop=()):
+def plain_fork_neighbours(ast):
+    """(events directly in front of, events directly behind) an AND/OR fork
+    all of whose branches are plain event sequences and which has an event on
+    both sides (|||START||| counts in front when the fork opens the job)."""
+    after, before = set(), set()
+
+    def plain(f):
+        return f.kind in ("AND", "OR") and all(
+            all(isinstance(x, ps.Ev) for x in b.items) for b in f.branches)
+
+    def w(seq, top):
+        items = seq.items
+        for i, it in enumerate(items):
+            if isinstance(it, ps.Fork):
+                if plain(it):
+                    prev = items[i - 1].name if i > 0 and isinstance(
+                        items[i - 1], ps.Ev) else (
+                        "|||START|||" if (top and i == 0) else None)
+                    nxt = items[i + 1].name if i + 1 < len(items) and \
+                        isinstance(items[i + 1], ps.Ev) else None
+                    if prev and nxt:
+                        after.add(prev)
+                        before.add(nxt)
+                for b in it.branches:
+                    w(b, False)
+            elif isinstance(it, ps.Loop):
+                w(it.body, False)
+    w(ast, True)
+    return after, before
+
+
+def partial_fork_or_join(all_jobs, jobs, in_loop=(), ast=None):
     """F-P: the job subset shows only part of the family of successor sets
     of an AND/OR fork (an event type - or the job start - that has, in the
     complete model of the definition, a successor set of >=2 events) or only
@@ -214,11 +245,28 @@ def partial_fork_or_join(all_jobs, jobs, in_loop=()):
     by another iteration looks like a break path to the learner."""
     cs, cp = _families(all_jobs)
     ss, sp = _families(jobs)
-    for sub, comp in ((ss, cs), (sp, cp)):
+    after, before = plain_fork_neighbours(ast) if ast is not None \
+        else (set(), set())
+    for sub, comp, plain in ((ss, cs, after), (sp, cp, before)):
         for t, s in sub.items():
             c = comp.get(t, set())
-            if s != c and (any(len(x) >= 2 for x in c) or t in in_loop):
+            if s == c:
+                continue
+            if t in in_loop:
                 return True
+            if not any(len(x) >= 2 for x in c):
+                continue
+            # a partly shown *plain* fork (branches are event sequences,
+            # events on both sides) is handled as long as the observed sets
+            # under each maximal set contain their own union; measured: 0 of
+            # 762 such cases fail C01/C07 on the unchanged tree
+            if t not in plain:
+                return True
+            for mx in [x for x in c if len(x) >= 2
+                       and not any(x < y for y in c)]:
+                under = [x for x in s if x <= mx]
+                if under and frozenset().union(*under) not in s:
+                    return True
     return False
 
 
